@@ -536,7 +536,8 @@ class World:
             if isinstance(v, (str, tuple, list, dict, set, frozenset)):
                 return len(v)
             from .values import SymSeq, PairSeq
-            if isinstance(v, (SymSeq, PairSeq)):
+            from .values import ObjSeq
+            if isinstance(v, (SymSeq, PairSeq, ObjSeq)):
                 return v.n
             if isinstance(v, Obj):
                 m, _ = v.cls.lookup("__len__")
@@ -603,6 +604,9 @@ class World:
 
         @reg("list")
         def _list(it, a, k):
+            from .values import ObjSeq
+            if a and isinstance(a[0], ObjSeq):
+                return a[0].copy()
             return list(it.iterate(a[0])) if a else []
 
         @reg("dict")
